@@ -36,7 +36,7 @@ ANN_NOTE = ("Trusted: TLC 1.8 + Json module; token concretisation (digits for pl
 _ann = ("Annotate.tla (one action per iteration of the annotation loop: translate through SpanUpdater, clip, balance test, style-tag repair, wrap, emit) "
         "and SpanUpdater.tla are model-checked by TLC for every target text of <= 4 tokens (text, inserted whitespace, <i>, <p>, (<b>)), with and without a source, "
         "3 modes, every sorted list of <= 2 spans, and for every well-formed markup of <= 8 tokens; every terminal configuration of the emit instances is replayed "
-        "through the real annotate_citations with both diff engines (incl. bold runs with self-closing elements and style runs with two annotations), plus every span and every pair of spans of short texts with blanks, long multi-line forced-alignment documents, the clean -> extract -> annotate pipeline on marked-up documents and arbitrary string pairs; "
+        "through the real annotate_citations with both diff engines (incl. bold runs with self-closing elements and style runs with two annotations), plus every span and every pair of spans of short texts with blanks, sources that LACK parts of the plain text (token class d: deletions of the diff, also leading ones and the empty source; found defect F26, fixed 69c0903), <div> elements (the name of the balance test's own wrapper), long multi-line forced-alignment documents, the clean -> extract -> annotate pipeline on marked-up documents and arbitrary string pairs; "
         "TLC judges every recorded output with the monitor clauses and compares it with the model. ")
 CHECKS["C09"] = dict(engine="annotate", design="4 C09", technique="TLA+ model checking of Annotate.tla (invariant Additive at every loop step) + configuration replay + TLC trace validation",
    text=_ann + "C09 clause: the output with the inserted strings removed equals the target text.", note=ANN_NOTE)
@@ -55,7 +55,8 @@ CHECKS["C13"] = dict(engine="ahofilter", design="4 C13", technique="regular-lang
    text=("For each of the ~6,800 extractors built from the installed reporters-db the pattern is parsed with Python's own regex parser into an epsilon-free NFA whose atomic "
          "predicates are classified by `re` itself over all 0x110000 code points; TLC explores the product with the Aho-Corasick automaton of the extractor's filter strings "
          "(fold as in the tokenizer) and reports every accepting product state that has seen no literal -- a complete decision of L(pattern) in Sigma* literals Sigma*. "
-         "Counterexample words are confirmed on the real regex and real get_extractors before they count. In addition one shortest accepted word per extractor, generated "
+         "Counterexample words are confirmed on the real regex and real get_extractors before they count. In addition one shortest accepted word per extractor, every filter string of every case-insensitive extractor in every case-variant spelling "
+         "(each character replaced by each of its variants, incl. the non-ASCII ones re.IGNORECASE accepts: U+0130, U+0131, U+017F, U+212A), generated "
          "documents and random sub-lists are run through AhocorasickTokenizer and the reference Tokenizer and TLC judges matching-subset-selected and stream equality."),
    note="Trusted for passing verdicts: the regex->NFA translation and the AC table construction in harness/regex2nfa.py (validated by witness words in both directions); anchors treated as epsilon.")
 CHECKS["C15"] = dict(engine="purity", design="4 C15", technique="TLA+ model checking of Purity.tla (threads x calls x hash-seed permutation; TLC emits the step-level schedules) + replay of every call-level history in fresh processes under different PYTHONHASHSEED + deterministic two-thread schedules (sys.settrace scheduler) + TLC trace validation",
@@ -79,7 +80,7 @@ CHECKS["C16"] = dict(engine="equality", design="4 C16", technique="TLA+ model ch
    text=("Equality.tla transcribes the class-specific hashes, == as hash equality, Resource hashing and reporter normalisation through guess_edition; TLC checks all pairs of abstract "
          "citations over a toy database containing every ambiguity pattern: CaseIff (equal iff same class, volume, page, corrected reporter, page not placeholder), SelfOnly, CrossKind, "
          "HashResource, MetaFree. For every reporter string that reporters-db (read directly) maps to exactly one edition a comparison group is extracted: canonical and variant spelling in "
-         "different contexts (pin, year in / out of the edition's range, parties, parenthetical, court), other page, other volume, a sibling edition, short forms, two placeholder pages; "
+         "different contexts (pin, year in / out of the edition's range, and -- for an edition name that is also a variation of other editions -- the first / last year of each of those, parties, parenthetical, court), other page, other volume, a sibling edition, short forms, two placeholder pages; "
          "plus nominative / id / unknown / law / journal groups and pools of all database examples. TLC judges ==, hash, Resource against the written identity, the equivalence laws and the "
          "corrected_citation round trip."),
    note="Trusted: TLC + Json; members not extracted exactly as written (custom templates) are skipped and counted; example pools take the written identity from the extracted groups.")
@@ -89,10 +90,10 @@ _ext = ("Extract.tla models the offset arithmetic of the extractors (extract_pin
         "add_pre_citation, short-form antecedents, match_on_tokens windows) over abstract token lists with NONDETERMINISTIC regex results; TLC checks SpanLaws for every word list of <= 4 (5) tokens, "
         "every citation position and form and every matcher result the window admits (and finds the two original arithmetic defects when the fix flags are off). "
         "Citation-dense generated documents (all fragment pairs x separators, seeded longer and hostile documents, character mutations), in plain and markup mode, through the three tokenizers, "
-        "are judged by TLC monitors on the returned citations; and Extract.tla is BOUND to the code step by step: the guarded hook logs every match_on_tokens window and result, Trace_ExtractSteps.tla recomputes every span of every returned citation (short / supra / id / full / law / journal) and every window length with Extract.tla's operators from the logged matcher results and the public token list and must equal what the library returned (selftest/binding_demo.py shows corrupted recordings are rejected). Monitors: ")
+        "are judged by TLC monitors on the returned citations; and Extract.tla is BOUND to the code step by step: the guarded hook logs every match_on_tokens window and result, Trace_ExtractSteps.tla recomputes every span of every returned citation (short / supra / id / full / law / journal) and every window length with Extract.tla's operators from the logged matcher results and the public token list and must equal what the library returned (selftest/binding_demo.py shows corrupted recordings are rejected). Meta.tla specifies the VALUES of the metadata (process_parenthetical as the loop the code runs, the strip helpers, get_year, the order post-citation / defendant scan / pre-citation / parallel inheritance): MC_Meta checks its laws for every text of <= 6 (8) characters and every chain of <= 4 (6) citations and every model input is replayed through the real helper functions; Trace_Meta.tla takes one model step per citation of a document (state: the citation appended just before), binds the matcher results from the hook events and recomputes every metadata value from the document at the places the events name (differences are SPEC-DRIFT). The generated documents are followed by a real-text corpus: every citation-like string literal of the repository's own tests and the paragraphs of tests/assets/opinion.txt. Monitors: ")
 CHECKS["C02"] = dict(engine="extract", design="4 C02", technique="TLA+ model checking of Extract.tla (offset arithmetic with nondeterministic matchers) + step-level trace validation of hook-recorded matcher events against Extract.tla (Trace_ExtractSteps.tla) + TLC-judged monitors on citations returned for generated documents",
    text=_ext + "0 <= full start <= start <= end <= full end <= len; the slice at the span starts with the whole matched text; the pin-cite span contains the span and the pin-cite text.", note=EXT_NOTE)
-CHECKS["C17"] = dict(engine="extract", design="4 C17", technique="TLC-judged witness monitor (every textual metadata value occurs inside the citation's own or joint extent) on generated documents + Extract.tla model checking and step-level trace validation (Trace_ExtractSteps.tla)",
+CHECKS["C17"] = dict(engine="extract", design="4 C17", technique="TLC-judged witness monitor (every textual metadata value occurs inside the citation's own or joint extent) on generated documents + Extract.tla / Meta.tla model checking and step-level trace validation of hook-recorded matcher events (Trace_ExtractSteps.tla: offsets; Trace_Meta.tla: values, one model step per citation)",
    text=_ext + "every textual metadata value (pin cite, year, parties, antecedent, extra, publisher, month, day, supra volume, full-citation parenthetical) is a slice of the text inside the citation's full span "
               "or the joint extent of the citations that start at the same place.", note=EXT_NOTE)
 CHECKS["C04"] = dict(engine="eyecite", design="4 C04", technique="TLC trace validation of recorded whole sessions against Eyecite.tla (no action for a raised call) + NoRaise invariants of the component models",
@@ -121,7 +122,7 @@ CHECKS["C05"] = dict(engine="scenario", design="4 C05", technique="TLA+ model ch
          "extracted and resolved by the real code, and TLC judges the recorded grouping with the same clauses."),
    note="Trusted: TLC + Json; rendering of sentences (harness/drv_extract.py); a sentence not extracted as exactly one citation of the written kind makes the document 'not judged' (counted; extraction is C01).")
 CHECKS["C01"] = dict(engine="forms", design="4 C01", technique="TLA+ grammar specification Forms.tla (TLC enumerates every document shape with its slot-level ground truth) + database-exhaustive concretisation + TLC-judged exact comparison",
-   text=("Forms.tla specifies the documented citation language as slot sequences (lead, parties, pre-citation year, core, pin cite, parallel cite, year / court / bracket parenthetical, parenthetical, terminator, trailing text) "
+   text=("Forms.tla specifies the documented citation language as slot sequences (lead, parties, pre-citation year, core, pin cite, parallel cite, year / court / bracket parenthetical, parenthetical, terminator, trailing text -- also one in which the defendant's name comes back as a later reference) "
          "for the six forms, the domain rules of the property, and Expected(shape): which slots the span covers, where every component is written, where the full span starts and ends. TLC enumerates all ~9,200 valid shapes "
          "and checks the ground truth is internally consistent. Every shape is concretised (reporter strings, courts from courts-db, names, numbers) and every plain-template reporter string of reporters-db (~2,900 edition names "
          "and variations) is run through the minimal 'vol R page' and 'vol R at page' forms; TLC compares the projected result of get_citations with the concrete expectation: count, kind, exact span, groups, pin cite, year, court, "
